@@ -1,16 +1,17 @@
 from core import Inst
 
 META = {
-    'functions': ['decl.c:getlinkage', 'decl.c:declcommon', 'decl.c:mkdecl'],
-    'bounds': {'linkage': 'one declaration step over every (kind, storage class, scope, prior declaration state) tuple, all symbolic'},
+    'functions': ['decl.c:getlinkage', 'decl.c:declcommon', 'decl.c:mkdecl', 'decl.c:decl (definition, tentative and inline bookkeeping, emittentativedefns)'],
+    'bounds': {'symtab': 'histories of <= 3 declarations (<= 1 definition) of one function or object from {none, static, extern, inline, extern inline, static inline} plus a user, block-scope and thread-local variants; oracle gcc -std=c11 + nm', 'linkage': 'one declaration step over every (kind, storage class, scope, prior declaration state) tuple, all symbolic'},
     'stubs': ['scope.c replaced by a one-identifier visibility model', 'typecompatible = identity on two stand-in types', 'error() ends the path after asserting the reference also rejects'],
-    'outside': ['which definitions are emitted (tentative definitions, inline definitions): parser-level, not in this step', 'multi-identifier units', 'asm labels',
-                'nm-level comparison with gcc objects'],
+    'outside': ['undefined references (visible only in the IL text)', 'multi-identifier units beyond f/x plus one user', 'asm labels at parser level (step harness only)',
+                'histories the platform compiler rejects'],
 }
 
 
 def instances(build, tier, seed):
-    return [Inst('linkage.step', 'h_linkage.c', {}, units=[], unwind=8, unwindset=['strcmp.0:8'], family='linkage', timeout=300,
+    import symlib
+    return symlib.instances(tier) + [Inst('linkage.step', 'h_linkage.c', {}, units=[], unwind=8, unwindset=['strcmp.0:8'], family='linkage', timeout=300,
                  native_units=['scope', 'util', 'token', 'expr', 'type', 'eval', 'init', 'map', 'targ', 'attr', 'stmt', 'utf', 'scan', 'pp', 'qbe', 'tree'],
                  bound={'tuple': 'symbolic'}),
             Inst('linkage.step.b', 'h_linkage.c', {'VARIANT_B': None}, units=[], unwind=8, unwindset=['strcmp.0:8'], family='linkage', timeout=300,
